@@ -526,3 +526,52 @@ def c10_per_chromosome_names(tier, rng):
                                      "observed": got, "required": want})
     return {"obligations": obl, "discharged": dis, "violations": viol, "cases": obl, "exhaustive": True,
             "bound": "14 experiment names x 2 output roots x output paths of SampleData x 6 suffixes", "samples": [{"prefix": "s", "file": "/data/out/s/s.read_assignments.tsv"}]}
+
+
+# ---- experiments of one invocation never share an output folder --------------------------------------------------------------------------------------
+@finite("C10.experiment_names_distinct", ["C10"], note="the real InputDataStorage.get_samples_from_file / get_samples_from_yaml on every sequence of <= 4 "
+        "experiment names drawn from {A, B, RUN0, RUN1, RUN2, RUN3, unnamed} with --prefix RUN: either the run is refused (exit) or the experiments "
+        "get pairwise distinct names - two experiments with one name write into one folder")
+def c10_experiment_names(tier, rng):
+    import contextlib, io, itertools, shutil, tempfile
+    ids = native.repo_import("src/input_data_storage.py")
+    base = os.path.join(os.path.dirname(os.path.dirname(os.path.abspath(__file__))), ".run")
+    os.makedirs(base, exist_ok=True)
+    d = tempfile.mkdtemp(prefix="expn", dir=base)
+    obl = dis = 0
+    viol = []
+    try:
+        for k in range(4):
+            open(os.path.join(d, "f%d.bam" % k), "w").close()
+        for n in (2, 3, 4):
+            for names in itertools.product(["A", "B", "RUN0", "RUN1", "RUN2", "RUN3", None], repeat=n):
+                for kind in ("list", "yaml"):
+                    obl += 1
+                    path = os.path.join(d, "in." + kind)
+                    with open(path, "w") as f:
+                        if kind == "list":
+                            for k, nm in enumerate(names):
+                                f.write("#%s\n%s\n" % (nm or "", os.path.join(d, "f%d.bam" % k)))
+                        else:
+                            f.write('[\n  data format: "bam"')
+                            for k, nm in enumerate(names):
+                                f.write(',\n  {\n%s    long read files: ["f%d.bam"]\n  }' % ('    name: "%s",\n' % nm if nm else "", k))
+                            f.write("\n]\n")
+                    s = ids.InputDataStorage.__new__(ids.InputDataStorage)
+                    s.experiment_prefix, s.input_type = "RUN", "bam"
+                    try:
+                        with contextlib.redirect_stdout(io.StringIO()):      # the YAML parser prints the data format
+                            got = (s.get_samples_from_file(path) if kind == "list" else s.get_samples_from_yaml(path))[1]
+                    except SystemExit:
+                        dis += 1
+                        continue
+                    if len(got) == n and len(set(got)) == n:
+                        dis += 1
+                    elif len(viol) < 3:
+                        viol.append({"obligation": "C10.experiment_names_distinct.%s.%s" % (kind, "_".join(x or "unnamed" for x in names)),
+                                     "inputs": {"format": kind, "names": list(names), "prefix": "RUN"}, "observed": got,
+                                     "required": "%d pairwise distinct experiment names, or a refusal" % n})
+    finally:
+        shutil.rmtree(d, ignore_errors=True)
+    return {"obligations": obl, "discharged": dis, "violations": viol, "cases": obl, "exhaustive": True,
+            "bound": "all name sequences of length 2-4 over 7 names x {list file, YAML}", "samples": [{"names": ["RUN2", "A", "A"], "prefix": "RUN"}]}
